@@ -461,11 +461,15 @@ def _work(task):
 def main(tier):
     r = common.Run("C11", "model_checking", tier)
     depth = 3 if tier == "quick" else 4
+
+    def depth_of(cfg):
+        # thorough: four events on the two-node sequences (alphabet 37/38), three on the larger ones (alphabet 55-78:
+        # four events there would be 10^8 sequences per configuration)
+        return depth if (tier == "quick" or (cfg[0] == 2 and not cfg[1])) else 3
+
     tasks = []
     for cfg in configs(tier):
-        for d in range(1, depth + 1):
-            if d < depth and tier == "thorough" and d > 1:
-                pass
+        for d in range(1, depth_of(cfg) + 1):
             for first in alphabet(cfg, tier):
                 tasks.append((cfg, d, first, tier))
     tasks = common.shuffled(tasks, "c11")
@@ -497,7 +501,7 @@ def main(tier):
         "evaluations": total, "distinct_nontrivial": nontrivial,
         "rule": "a case is one event sequence (warm-up steps + all sequences over the alphabet up to the depth) followed by draining every iterator; non-trivial = contains at least one iterator step and one edit",
         "exhaustive": True,
-        "bound": {"depth": depth, "configs": len(cfgs), "alphabet_sizes": sorted({len(alphabet(c, tier)) for c in cfgs}),
+        "bound": {"depth": depth, "depth_per_config": {str(c): depth_of(c) for c in cfgs}, "configs": len(cfgs), "alphabet_sizes": sorted({len(alphabet(c, tier)) for c in cfgs}),
                   "iterator_sets": sorted({"+".join(c[2]) for c in cfgs}), "warm_up_steps": [0, 1, 2, 3]},
     })
     r.assumptions += [
